@@ -222,6 +222,13 @@ fn make_crypto_reader<'a>(
             return unsupported_zip_error("Compression method not supported");
         }
     }
+    // The AE-x marker (99) is replaced by the real method while parsing the AES extra field. If it
+    // is still here, there is no decoder for it: refuse it like any other unsupported method
+    // instead of reaching the fall-through arm of `make_reader`.
+    #[cfg(feature = "aes-crypto")]
+    if let CompressionMethod::Aes = compression_method {
+        return unsupported_zip_error("Compression method not supported");
+    }
 
     let reader = match (password, aes_info) {
         #[cfg(not(feature = "aes-crypto"))]
